@@ -38,6 +38,9 @@ def _word(block, acc):
     return int.from_bytes(block[acc.pos:acc.pos + acc.length], "big")
 
 
+RAISED = []
+
+
 def history(cfg, log, async_, rng, n_steps, recs, meta):
     from geckolib.driver import GeckoStructure, GeckoAsyncStructure
     st = GeckoAsyncStructure(None, None) if async_ else GeckoStructure(None)
@@ -200,7 +203,14 @@ def history(cfg, log, async_, rng, n_steps, recs, meta):
                 accs[first].watch(trig.cb)
                 ops[first].append({"op": "w", "o": 3})
                 nested = (off2, seg2, first)
-        st.replace_status_block_segment(off, seg)
+        try:
+            st.replace_status_block_segment(off, seg)
+        except Exception as e:     # none of the harness's observers raises: the library failed while notifying
+            RAISED.append((name, step, off, n, repr(e)[:200]))
+            if nested is not None:
+                accs[nested[2]].unwatch(observers[(nested[2], 3)].cb)
+                ops[nested[2]].append({"op": "u", "o": 3})
+                continue
         if nested is not None and not state_["done"]:
             # (the chosen item did not notify after all: an ordinary step with one more observer registered)
             accs[nested[2]].unwatch(observers[(nested[2], 3)].cb)
@@ -390,7 +400,14 @@ def run(ctx):
     n_patch = len(recs)
     for c, l in sel[:10 if ctx.quick else len(sel)]:
         for async_ in (False, True):
-            refresh_history(c, l, async_, rng, recs, meta)
+            try:
+                refresh_history(c, l, async_, rng, recs, meta)
+            except env.MachineryError as e:
+                # a refresh that cannot finish on a fault-free network is machinery trouble - unless the library has
+                # already been seen raising out of its own notifications, which is what stops the transfer
+                if not RAISED:
+                    raise
+                RAISED.append((f"{c['name']}+{l['name']}/{'async' if async_ else 'sync'}/refresh", 0, 0, 0, str(e)[:200]))
     ev.cov["refresh_path_updates"] = len(recs) - n_patch
     bad, n = tlc.judge("C03_Judge", recs, "c03", chunk=600, jobs=12, heap="1500m")
     for idx, why in bad:
@@ -403,6 +420,10 @@ def run(ctx):
                       {"where": name, "step": step, "off": r_["off"], "n": r_["n"], "fired": inv, "item_types": types,
                        "items": [{k: v for k, v in it.items() if k != "labels"} for it in r_["items"][:12]],
                        "calls": r_["calls"][:12]})
+    for (name, step, off_, n_, what) in RAISED[:50]:
+        ctx.violation({"clause": "update-raised", "structure": name.split("/")[1],
+                       "path": "refresh" if name.endswith("/refresh") else "patch"},
+                      {"where": name, "step": step, "off": off_, "n": n_, "exception": what})
     ev.cov["evaluations"] = n
     ev.cov["traces_validated_against_impl"] = n - len(bad)
     ev.cov["notifications_observed"] = sum(len(r_["calls"]) for r_ in recs)
